@@ -190,7 +190,7 @@ static void print_hunk_statistics(std::ostream& out, size_t hunk_num, bool skipp
         }
         out << ".\n";
     } else {
-        out << expected_line_number(hunk) + offset_old_lines_to_new << ".\n";
+        out << saturating_add(expected_line_number(hunk), offset_old_lines_to_new) << ".\n";
     }
 }
 
@@ -321,7 +321,7 @@ Result apply_patch(File& out_file, RejectWriter& reject_writer, const std::vecto
         }
 
         if (!skip_remaining_hunks && location.is_found()) {
-            offset_error += location.offset;
+            offset_error = saturating_add(offset_error, location.offset);
 
             // Write up until where we have found this latest hunk from the old file.
             for (; line_number < location.line_number; ++line_number)
@@ -332,8 +332,8 @@ Result apply_patch(File& out_file, RejectWriter& reject_writer, const std::vecto
         } else {
             // The hunk has failed to reply. We now need to write the hunk to the reject file.
             // Per POSIX, ensure offset relative to new file rather than old file.
-            hunk.new_file_range.start_line += offset_old_lines_to_new;
-            hunk.old_file_range.start_line += offset_old_lines_to_new;
+            hunk.new_file_range.start_line = saturating_add(hunk.new_file_range.start_line, offset_old_lines_to_new);
+            hunk.old_file_range.start_line = saturating_add(hunk.old_file_range.start_line, offset_old_lines_to_new);
             reject_writer.write_reject_file(hunk);
         }
 
